@@ -407,3 +407,65 @@ def profile_cut(k: int, proto: str) -> bool:
     with untraced():
         r = _profile_cut(proto, k)
         return r is None or not r
+
+
+# ------------------------------------------------------------------------------------------ waiters released by channel-level events
+def _channel_waiters(kind):
+    with detloop.running() as loop:
+        w = Wire(handles=(1, 2))
+        a, b = w.mgr
+        if kind == 'classic_crossing_disconnect':
+            got = []
+            b.create_classic_server(l2cap.ClassicChannelSpec(psm=PSM), handler=got.append)
+            t = loop.create_task(a.create_classic_channel(w.conns[0][1], l2cap.ClassicChannelSpec(psm=PSM)))
+            w.pump(loop)
+            ca, cb = t.result(), got[0]
+            ts = [loop.create_task(ca.disconnect()), loop.create_task(cb.disconnect())]      # both requests are on the wire before either arrives
+            w.pump(loop)
+            _settle(loop, 500)
+            return [f'disconnect() {i} never ends' for i, x in enumerate(ts) if not x.done()] + (['channel tables not empty'] if any(a.channels.values()) or any(b.channels.values()) else [])
+        if kind == 'coc_drain_peer_closes':
+            got = []
+            b.create_le_credit_based_server(l2cap.LeCreditBasedChannelSpec(psm=0x81, max_credits=1), handler=got.append)
+            t = loop.create_task(a.create_le_credit_based_channel(w.conns[0][1], l2cap.LeCreditBasedChannelSpec(psm=0x81)))
+            w.pump(loop)
+            ca, cb = t.result(), got[0]
+            cb.sink = lambda sdu: None
+            ca.write(bytes(600))                   # more than the peer's credits allow: output stays queued
+            td = loop.create_task(ca.drain())
+            loop.run_ready()
+            tc = loop.create_task(cb.disconnect())
+            w.pump(loop)
+            _settle(loop, 500)
+            return [n for n, x in (('drain() never ends', td), ('disconnect() never ends', tc)) if not x.done()]
+        if kind == 'parameter_update_link_loss':
+            t1 = loop.create_task(b.update_connection_parameters(w.conns[1][1], 10, 20, 0, 100))
+            loop.run_ready()
+            w.q.clear()                            # the request is lost with the link
+            w.link_down(loop, 1)
+            _settle(loop, 500)
+            bad = [] if t1.done() else ['update_connection_parameters() never ends']
+            # the other link can still ask
+            a.on_l2cap_connection_parameter_update_request = lambda conn, cid, req: a.send_control_frame(conn, cid, l2cap.L2CAP_Connection_Parameter_Update_Response(identifier=req.identifier, result=0))
+            try:
+                t2 = loop.create_task(b.update_connection_parameters(w.conns[1][2], 10, 20, 0, 100))
+                w.pump(loop)
+                _settle(loop, 500)
+                if not t2.done() or t2.exception() is not None:
+                    bad.append('a request on another link is refused or never ends')
+            except Exception as e:
+                bad.append(f'a request on another link raised {type(e).__name__}')
+            return bad
+        raise KeyError(kind)
+
+
+WAITER_KINDS = ['classic_crossing_disconnect', 'coc_drain_peer_closes', 'parameter_update_link_loss']
+
+
+@harness(pre=['0 <= i <= 2'], family='l2cap-cut', twin=True, kernels=K + ('bumble.l2cap.ClassicChannel.on_disconnection_request', 'bumble.l2cap.LeCreditBasedChannel.on_disconnection_request',
+                                                                          'bumble.l2cap.ChannelManager.update_connection_parameters'), timeout=(60, 200),
+         bounds='three waiters released by channel-level events: both ends of a classic channel call disconnect() at the same time (crossing requests); drain() on an LE CoC channel whose peer closes it; an L2CAP connection-parameter-update request whose link drops (and a later request on another link)')
+def channel_level_waiters(i: int) -> bool:
+    i = C(i, 0, 2)
+    with untraced():
+        return not _channel_waiters(WAITER_KINDS[i])
